@@ -216,6 +216,9 @@ func (e *Engine) verifyFunc(fn *ssa.Function, classes map[string]bool) (vc *VC) 
 			vc.fact(Ne(params[0].one(), Zero))
 		}
 	}
+	if specUsesFieldSets(f.spec) {
+		vc.useFS = true
+	}
 	if f.spec != nil {
 		vc.usedSpec[f.spec.Name] = true
 		env := f.specEnv(params, nil, st)
